@@ -2,6 +2,7 @@ package main
 
 import (
 	"fmt"
+	"go/token"
 	"go/types"
 	"sort"
 	"strings"
@@ -532,5 +533,64 @@ func RunCodecCBOR(p *Prog, r *Report) {
 		r.Pass("CODEC-CBOR", modPath+"/constraint", "(*System).ToBytes", "encmode:deterministic", dpos, "encoder built from cbor.CoreDetEncOptions (sorted map keys, canonical integers)", true)
 	} else {
 		r.Fail("CODEC-CBOR", modPath+"/constraint", "(*System).ToBytes", "encmode:deterministic", "-", "the CBOR encoder is no longer the deterministic core mode: serialized bytes may depend on map order")
+	}
+}
+
+// RunCodecNoReadAhead (CODEC-EXACT): a decoder consumes exactly the bytes of its object — ReadFrom reports the
+// count, and objects are written back to back on one stream. A reader function of the codec scope therefore never
+// wraps the io.Reader it was given in a buffering reader (bufio.NewReader / NewReaderSize / NewScanner,
+// io.ReadAll): the wrapper reads ahead and the bytes after the object are lost to the caller.
+func RunCodecNoReadAhead(p *Prog, r *Report, scope func(string) bool) {
+	const rule = "CODEC-EXACT"
+	readAhead := map[string]bool{"bufio.NewReader": true, "bufio.NewReaderSize": true, "bufio.NewScanner": true, "io.ReadAll": true, "io/ioutil.ReadAll": true, "bufio.NewReadWriter": true}
+	n := 0
+	for _, fn := range p.Funcs {
+		pk := FuncPkg(fn)
+		if pk == nil || !scope(pk.Path()) || len(fn.Blocks) == 0 {
+			continue
+		}
+		// functions that receive an io.Reader
+		var rd *ssa.Parameter
+		for _, pm := range fn.Params {
+			if strings.HasSuffix(pm.Type().String(), "io.Reader") {
+				rd = pm
+			}
+		}
+		if rd == nil {
+			continue
+		}
+		n++
+		bad := ""
+		var pos token.Pos
+		for _, b := range fn.Blocks {
+			for _, ins := range b.Instrs {
+				c, ok := ins.(ssa.CallInstruction)
+				if !ok {
+					continue
+				}
+				cal := c.Common().StaticCallee()
+				if cal == nil || cal.Pkg == nil {
+					continue
+				}
+				name := cal.Pkg.Pkg.Path() + "." + cal.Name()
+				if !readAhead[name] {
+					continue
+				}
+				for _, a := range c.Common().Args {
+					if dependsOnParams(a, fn, map[int]bool{paramIndex(rd): true}, nil) {
+						bad, pos = name, ins.Pos()
+					}
+				}
+			}
+		}
+		key := "reader:" + rd.Name()
+		if bad != "" {
+			r.Fail(rule, pk.Path(), FuncName(fn), key, p.Pos(pos), "the decoder wraps the caller's io.Reader with "+bad+", which reads ahead: bytes following the object on the stream are consumed and the reported byte count no longer equals what was taken from the reader")
+		} else {
+			r.Pass(rule, pk.Path(), FuncName(fn), key, p.Pos(FuncPos(fn)), "the io.Reader parameter is never wrapped in a read-ahead reader", false)
+		}
+	}
+	if n < 20 {
+		r.Fail("UNRESOLVED", "-", "-", "decoders with an io.Reader parameter", "-", fmt.Sprintf("%d found, confirmed at least 20", n))
 	}
 }
